@@ -45,8 +45,10 @@ Cols(W, k) == LET p == W \div k IN
 Rows(W, k) == LET p == W \div k IN
     {{r \in 0..(W - 1) : r \div p = i} : i \in 0..(k - 1)}
 
-ColOf(W, k, r) == CHOOSE c \in Cols(W, k) : r \in c
-RowOf(W, k, r) == CHOOSE c \in Rows(W, k) : r \in c
+\* the column / row containing rank r (arithmetic form; GridOK checks that they
+\* are the members of Cols / Rows containing r)
+ColOf(W, k, r) == LET p == W \div k IN {q \in 0..(W - 1) : q % p = r % p}
+RowOf(W, k, r) == LET p == W \div k IN {q \in 0..(W - 1) : q \div p = r \div p}
 
 ---------------------------------------------------------------------------
 (* greedy assignment: KAISAAssignment.greedy_assignment *)
@@ -165,16 +167,20 @@ GridOK(W, k) ==
     /\ Cardinality(Cols(W, k)) = W \div k
     /\ Cardinality(Rows(W, k)) = k
     /\ \A c \in Cols(W, k) : \A rw \in Rows(W, k) : Cardinality(c \cap rw) = 1
+    /\ \A r \in 0..(W - 1) : /\ ColOf(W, k, r) \in Cols(W, k) /\ r \in ColOf(W, k, r)
+                              /\ RowOf(W, k, r) \in Rows(W, k) /\ r \in RowOf(W, k, r)
 ViewsOK(W, k, work, res) ==
     \A i \in DOMAIN work :
-        LET layer == work[i] IN
-        /\ LayerWorkers(res, layer.name) \subseteq GradWorkerCol(W, k, res, layer)
+        LET layer == work[i]
+            col == GradWorkerCol(W, k, res, layer) IN
+        /\ LayerWorkers(res, layer.name) \subseteq col
         /\ \A r \in 0..(W - 1) :
-              /\ Cardinality(SrcSet(W, k, res, layer, r)) = 1
-              /\ LET s == CHOOSE x \in SrcSet(W, k, res, layer, r) : TRUE IN
-                   /\ IsGradWorker(W, k, res, layer, s)
+              LET ss == col \cap RowOf(W, k, r) IN
+              /\ Cardinality(ss) = 1
+              /\ LET s == CHOOSE x \in ss : TRUE IN
+                   /\ s \in col
                    /\ s \in RowOf(W, k, r)
-                   /\ (s = r) <=> IsGradWorker(W, k, res, layer, r)
+                   /\ (s = r) <=> (r \in col)
 FlagsOK(W, k) ==
     /\ BroadcastGradients(W, k) <=> (k # W)          \* not COMM-OPT
     /\ BroadcastInverses(W, k) <=> (k # 1)           \* not MEM-OPT
@@ -187,6 +193,7 @@ CONSTANTS
     MaxW,        \* world sizes 1..MaxW
     MaxL,        \* up to MaxL layers
     Costs,       \* set of factor costs
+    NF,          \* set of factor counts per layer (greedy mode; kaisa uses {2})
     KaisaOrders  \* [<<W, k>> -> set of group orders]: the order(s) in which
                  \* the interpreter hands the column groups to the greedy
                  \* (supplied by the harness from the real set iteration),
@@ -196,18 +203,6 @@ CONSTANTS
 LayerNames == <<"l1", "l2", "l3", "l4">>
 FactorNames == <<"A", "G", "H">>
 Divisors(W) == {k \in 1..W : W % k = 0}
-
-\* all layers with nf factors and costs from Costs, named n
-LayersOf(n, nf) ==
-    {[name |-> n, fs |-> [j \in 1..nf |-> [f |-> FactorNames[j], c |-> cs[j]]]] :
-        cs \in [1..nf -> Costs]}
-\* all work dictionaries with L layers, every layer with a factor count in NF
-RECURSIVE WorkOf(_, _)
-WorkOf(L, NF) ==
-    IF L = 0 THEN {<<>>}
-    ELSE {Append(w, x) : w \in WorkOf(L - 1, NF),
-                         x \in UNION {LayersOf(LayerNames[L], nf) : nf \in NF}}
-WorkSpace(NF) == UNION {WorkOf(L, NF) : L \in 0..MaxL}
 
 AscSeq(S) == \* ascending sequence of a finite set of naturals
     LET RECURSIVE F(_)
@@ -219,36 +214,18 @@ AscGroups(P) == \* groups ordered by their minimum, members ascending
                 ELSE LET g == CHOOSE x \in Q : \A y \in Q : MinOfSet(x) <= MinOfSet(y)
                      IN <<AscSeq(g)>> \o F(Q \ {g})
     IN F(P)
-
-KaisaTuples ==
-    {[W |-> W, k |-> k, colocate |-> c, groups |-> o, work |-> w, tag |-> "kaisa"] :
-        W \in 1..MaxW, k \in 1..MaxW, c \in BOOLEAN,
-        o \in UNION {KaisaOrders[x] : x \in DOMAIN KaisaOrders},
-        w \in WorkSpace({2})}
-KaisaOK(x) ==
-    /\ x.k \in Divisors(x.W)
-    /\ <<x.W, x.k>> \in DOMAIN KaisaOrders
-    /\ x.groups \in KaisaOrders[<<x.W, x.k>>] \cup {AscGroups(Cols(x.W, x.k))}
+OrdersOf(x) == KaisaOrders[x] \cup {AscGroups(Cols(x[1], x[2]))}
 
 \* worker groups for the plain greedy: every labelling of the ranks with a
 \* group number (0 = rank not used); empty groups dropped; members ascending
 \* or descending
-GroupSeqs(W) ==
-    LET G == 3
-        Lab == [0..(W - 1) -> 0..G]
-        Mk(f, rev) ==
-            LET gs == [g \in 1..G |-> {r \in 0..(W - 1) : f[r] = g}]
-                ne == SelectSeq([g \in 1..G |-> gs[g]], LAMBDA S : S # {})
-            IN [i \in DOMAIN ne |->
-                  IF rev THEN LET a == AscSeq(ne[i]) IN
-                              [j \in DOMAIN a |-> a[Len(a) + 1 - j]]
-                  ELSE AscSeq(ne[i])]
-    IN {Mk(f, rev) : f \in Lab, rev \in BOOLEAN} \ {<<>>}
-
-GreedyTuples ==
-    {[W |-> W, k |-> 0, colocate |-> c, groups |-> g, work |-> w, tag |-> "greedy"] :
-        W \in {MaxW}, c \in BOOLEAN, g \in GroupSeqs(MaxW),
-        w \in WorkSpace({1, 2, 3})}
+MkGroups(f, rev, W, G) ==
+    LET gs == [g \in 1..G |-> {r \in 0..(W - 1) : f[r] = g}]
+        ne == SelectSeq(gs, LAMBDA S : S # {})
+    IN [i \in DOMAIN ne |->
+          IF rev THEN LET a == AscSeq(ne[i]) IN
+                      [j \in DOMAIN a |-> a[Len(a) + 1 - j]]
+          ELSE AscSeq(ne[i])]
 
 \* wide: large worlds, two fixed cost patterns (grid structure / acceptance)
 WidePattern(i) ==
@@ -257,31 +234,57 @@ WidePattern(i) ==
            [name |-> "l2", fs |-> <<[f |-> "A", c |-> 2], [f |-> "G", c |-> 2]>>],
            [name |-> "l3", fs |-> <<[f |-> "A", c |-> 0], [f |-> "G", c |-> 5]>>]>>
     ELSE <<[name |-> "l1", fs |-> <<[f |-> "A", c |-> 1], [f |-> "G", c |-> 1]>>]>>
-WideTuples ==
-    {[W |-> x[1], k |-> x[2], colocate |-> c, groups |-> o, work |-> WidePattern(i),
-      tag |-> "kaisa"] :
-        x \in DOMAIN KaisaOrders, c \in BOOLEAN, i \in 1..2,
-        o \in UNION {KaisaOrders[y] : y \in DOMAIN KaisaOrders}}
 
-VARIABLE t
-Init ==
-    CASE Mode = "kaisa" -> t \in {x \in KaisaTuples : KaisaOK(x)}
-      [] Mode = "greedy" -> t \in GreedyTuples
-      [] Mode = "wide" -> t \in {x \in WideTuples : KaisaOK(x)}
-Next == UNCHANGED t
-Spec == Init /\ [][Next]_t
+VARIABLES t, res    \* argument tuple, and Greedy's value on it
+
+\* The argument space is generated as a behaviour: Init fixes world, groups and
+\* co-location, every AddLayer step appends one layer with some costs, so the
+\* reachable states are exactly the argument tuples (work = dict in insertion
+\* order) and TLC's breadth-first search enumerates them.
+InitT ==
+    CASE Mode = "kaisa" ->
+           \E x \in {y \in DOMAIN KaisaOrders : y[1] <= MaxW} :
+           \E c \in BOOLEAN : \E o \in OrdersOf(x) :
+              t = [W |-> x[1], k |-> x[2], colocate |-> c, groups |-> o,
+                   work |-> <<>>, tag |-> "kaisa"]
+      [] Mode = "greedy" ->
+           \E f \in [0..(MaxW - 1) -> 0..3] : \E rev \in BOOLEAN : \E c \in BOOLEAN :
+              /\ MkGroups(f, rev, MaxW, 3) # <<>>
+              /\ t = [W |-> MaxW, k |-> 0, colocate |-> c,
+                      groups |-> MkGroups(f, rev, MaxW, 3),
+                      work |-> <<>>, tag |-> "greedy"]
+      [] Mode = "wide" ->
+           \E x \in DOMAIN KaisaOrders : \E c \in BOOLEAN : \E i \in 1..2 :
+           \E o \in OrdersOf(x) :
+              t = [W |-> x[1], k |-> x[2], colocate |-> c, groups |-> o,
+                   work |-> WidePattern(i), tag |-> "kaisa"]
 
 Res(x) == Greedy(x.work, x.groups, x.W, x.colocate)
+Init == InitT /\ res = Res(t)
+
+FactorCounts == IF Mode = "greedy" THEN NF ELSE {2}
+
+AddLayer ==
+    /\ Mode # "wide"
+    /\ Len(t.work) < MaxL
+    /\ \E nf \in FactorCounts : \E cs \in [1..nf -> Costs] :
+          t' = [t EXCEPT !.work = Append(@,
+                  [name |-> LayerNames[Len(t.work) + 1],
+                   fs |-> [j \in 1..nf |-> [f |-> FactorNames[j], c |-> cs[j]]]])]
+    /\ res' = Res(t')
+
+Next == AddLayer
+Spec == Init /\ [][Next]_<<t, res>>
 
 InvGreedy ==
-    LET r == Res(t) IN
+    LET r == res IN
     /\ GComplete(t.work, t.groups, r)
     /\ GConfined(t.work, t.groups, t.colocate, r)
     /\ GBalanced(t.work, t.groups, t.colocate, r)
     /\ GLoadsConsistent(t.work, r, t.W)
 InvKaisa ==
     (t.tag = "kaisa") =>
-        LET r == Res(t) IN
+        LET r == res IN
         /\ GridOK(t.W, t.k)
         /\ Range(MapSeq(t.groups, Range)) = Cols(t.W, t.k)
         /\ ViewsOK(t.W, t.k, t.work, r)
@@ -289,7 +292,7 @@ InvKaisa ==
 
 \* emission for the conformance replay (evaluated once per distinct state)
 Emit ==
-    LET r == Res(t) IN
+    LET r == res IN
     PrintT(ToJson([t |-> t,
                    asg |-> [i \in DOMAIN t.work |->
                               [j \in DOMAIN t.work[i].fs |->
@@ -297,12 +300,13 @@ Emit ==
                    loads |-> [w \in 1..t.W |-> r.loads[w - 1]],
                    src |-> IF t.tag = "kaisa"
                            THEN [i \in DOMAIN t.work |->
+                                   LET col == GradWorkerCol(t.W, t.k, r, t.work[i]) IN
                                    [w \in 1..t.W |->
-                                      CHOOSE x \in SrcSet(t.W, t.k, r, t.work[i], w - 1) : TRUE]]
+                                      CHOOSE x \in col \cap RowOf(t.W, t.k, w - 1) : TRUE]]
                            ELSE <<>>,
                    gw |-> IF t.tag = "kaisa"
                           THEN [i \in DOMAIN t.work |->
-                                  [w \in 1..t.W |->
-                                     IsGradWorker(t.W, t.k, r, t.work[i], w - 1)]]
+                                  LET col == GradWorkerCol(t.W, t.k, r, t.work[i]) IN
+                                  [w \in 1..t.W |-> (w - 1) \in col]]
                           ELSE <<>>]))
 =============================================================================
